@@ -55,9 +55,13 @@ void t_vterm_c_long(Src &s, Case &c) { run_terminal<CTerm>(s, c, 2, "vterm_c"); 
 // =========================================================================
 // sline: struct sline (exact heap buffer) and igris::sline in lock step with a string
 // =========================================================================
+// the sline_api_big target: capacities around 256 and around 65536 (beyond one- and two-byte fields)
+static bool g_sline_big = false;
 void t_sline_api(Src &s, Case &c)
 {
     unsigned cap = (unsigned)(s.weighted({3, 1}) == 0 ? s.range(2, 6) : s.range(2, 24));
+    if (g_sline_big)
+        cap = s.below(3) ? (unsigned)s.range(250, 300) : s.pick<uint32_t>({65535, 65536, 65537, 65538, 70000, 131072});
     size_t nops = (size_t)(s.weighted({3, 1}) == 0 ? s.range(0, 16) : s.range(0, 60));
     c.log("sline cap=%u:", cap);
     const bool k_newdata = known_active(K_NEWDATA);
@@ -243,6 +247,19 @@ VP_TARGET("sline_api", t_sline_api,
           "struct sline over an exactly-sized heap buffer and igris::sline (capacity 2..24) in lock step with a string: putchar, newdata(0..2*cap bytes), "
           "getline, backspace(k), delete(k), left, right, reset, equal; return values, length/cursor/content/accessors after every call; non-trivial = an "
           "insertion that does not fit or an edit with the cursor inside the line");
+void t_sline_api_big(Src &s, Case &c)
+{
+    struct G
+    {
+        G() { g_sline_big = true; }
+        ~G() { g_sline_big = false; }
+    } g;
+    t_sline_api(s, c);
+    c.label("big_capacity");
+}
+VP_TARGET("sline_api_big", t_sline_api_big,
+          "struct sline / igris::sline with capacity 250..300 or 65535, 65536, 65537, 65538, 70000, 131072: the same operations (bulk inserts of up to "
+          "2*capacity bytes, so the line fills up) and checks as sline_api");
 VP_TARGET("vterm_c", t_vterm_c,
           "vterm.c: capacity 2..24, history depth 1..4, <= 120 keys (text over few letters, BS, arrows, DEL, CR, LF, CRLF, LFCR, ^C, unknown escapes, lone ESC), one "
           "byte per newdata call + idle step; execute/signal callbacks, VT100 screen row and cursor, line bounds and content against the reference editor after "
